@@ -41,7 +41,8 @@ from harness.lib import coqbuild
 
 LEVEL = "proof"
 THEOREMS = ["C14_fail_closed", "C14_never_partial", "C14_not_empty", "C14_checksum", "C14_untouched",
-            "C14_row_count_metadata_only", "C14_history_independent", "C14_healthy_ok", "C14_fail_closed_full_refuted"]
+            "C14_row_count_metadata_only", "C14_history_independent", "C14_checksum_survives_history", "C14_healthy_ok",
+            "C14_fail_closed_full_refuted"]
 REQ = ["DS.Gen.GenRead", "DS.Model.Read"]
 KNOWN_KEY = "current-metadata-file-deleted-serves-previous-version"
 
@@ -83,24 +84,110 @@ def _schema():
                                        {"id": 2, "name": "s", "type": "string", "required": False}])
 
 
-def build_table(path: str, shape: List[List[int]]) -> None:
-    """shape = one entry per snapshot: the row counts of the data files that commit appends."""
+class LibraryHang(BaseException):
+    """A library call exceeded its time budget (BaseException: must not be mistaken for the library raising)."""
+
+
+class bounded:
+    """Every call into the library runs under a wall-clock limit: a loop in the code under test becomes a failed
+    case / a reported violation, never a stuck check.  (SIGALRM, main thread.)"""
+
+    def __init__(self, seconds: float, what: str):
+        self.seconds, self.what = seconds, what
+
+    def _fire(self, *_a):
+        raise LibraryHang(f"{self.what}: no result after {self.seconds} s")
+
+    def __enter__(self):
+        import signal
+        import threading
+        self.armed = threading.current_thread() is threading.main_thread()
+        if self.armed:
+            self.old = signal.signal(signal.SIGALRM, self._fire)
+            signal.setitimer(signal.ITIMER_REAL, self.seconds)
+        return self
+
+    def __exit__(self, *exc):
+        import signal
+        if self.armed:
+            signal.setitimer(signal.ITIMER_REAL, 0)
+            signal.signal(signal.SIGALRM, self.old)
+        return False
+
+
+CALL_LIMIT_S = 30.0
+CURRENT_CASE: Dict[str, Any] = {}
+
+
+def start_memory_watchdog(ctx, limit_mb: int = 8192) -> None:
+    """Runaway memory in the library under test ends the check with a VIOLATION naming the case in flight."""
+    import threading
+    import time
+
+    def watch():
+        page = os.sysconf("SC_PAGE_SIZE")
+        while True:
+            time.sleep(1.0)
+            try:
+                with open("/proc/self/statm") as f:
+                    rss_mb = int(f.read().split()[1]) * page // (1 << 20)
+            except Exception:
+                return
+            if rss_mb > limit_mb:
+                path = ctx._write_replay("library-memory-runaway", {"kind": "concrete", "what": f"resident memory {rss_mb} MB during the case", "case": dict(CURRENT_CASE)})
+                print(f"VIOLATION property=C14 replay={path}", flush=True)
+                os._exit(1)
+    threading.Thread(target=watch, daemon=True).start()
+
+
+def is_append(step: Any) -> bool:
+    return isinstance(step, list)
+
+
+def build_table(path: str, shape: List[Any], record: Optional[List[Dict[str, Any]]] = None) -> None:
+    """shape = the table's HISTORY, one entry per commit:
+         [n1, n2, ...]                         one transaction appending a data file of n_i rows per entry (one manifest)
+         {"delete": [i, ...], "append": [..]}  one transaction deleting the live data files with these indices (order of
+                                               the current snapshot; out-of-range indices wrap) and optionally appending
+         {"expire": true}                      expire every snapshot but the current one
+       record (optional) receives, per commit, what an independent reader sees before/after it."""
     from datashard import create_table
     shutil.rmtree(path, ignore_errors=True)
     schema = _schema()
-    t = create_table(path, schema)
+    with bounded(60, "create_table"):
+        t = create_table(path, schema)
     n = 0
-    for files in shape:
-        with t.new_transaction() as tx:
-            for cnt in files:
-                tx.append_data([{"id": n + j, "s": f"row-{n + j}"} for j in range(cnt)], schema)
-                n += cnt
-            tx.commit()
+    for step in shape:
+        before = Inventory(path) if (record is not None or not is_append(step)) else None
+        deleted: List[str] = []
+        with bounded(60, f"commit {step}"):
+            with t.new_transaction() as tx:
+                if is_append(step):
+                    counts = step
+                else:
+                    counts = step.get("append", [])
+                    if step.get("delete") and before.data:
+                        deleted = sorted({before.data[i % len(before.data)] for i in step["delete"]})
+                        tx.delete_files(["/" + d for d in deleted])
+                    if step.get("expire"):
+                        import time
+                        tx.expire_snapshots(int(time.time() * 1000) + 10 ** 6)
+                for cnt in counts:
+                    tx.append_data([{"id": n + j, "s": f"row-{n + j}"} for j in range(cnt)], schema)
+                    n += cnt
+                tx.commit()
+        if record is not None:
+            after = Inventory(path)
+            new = [p for p in after.all_data_files() if p not in before.files]
+            record.append({"step": step, "deleted": deleted,
+                           "appended": [(p, len(parquet_rows(after.files[p])), hashlib.sha256(after.files[p]).hexdigest()) for p in sorted(new, key=lambda q: parquet_rows(after.files[q])[:1])],
+                           "manifests_after": after.manifest_entries()})
 
 
 def open_handle(path: str):
     from datashard.transaction import Table
-    return Table(path, create_if_not_exists=False)
+    with bounded(CALL_LIMIT_S, "Table()"):
+        return Table(path, create_if_not_exists=False)
 
 
 # ====================================================================================== independent reader
@@ -135,10 +222,15 @@ def read_list_any(b: bytes) -> List[str]:
 
 def read_manifest_any(b: bytes) -> List[Tuple[str, Optional[str]]]:
     """(data file path, recorded checksum) per entry."""
+    return [(p, c) for p, _n, c in read_manifest_full(b)]
+
+
+def read_manifest_full(b: bytes) -> List[Tuple[str, int, Optional[str]]]:
+    """(data file path, record count, recorded checksum) per entry."""
     try:
-        return [(r["data_file"]["file_path"], r["data_file"].get("checksum")) for r in avro_records(b)]
+        return [(r["data_file"]["file_path"], r["data_file"]["record_count"], r["data_file"].get("checksum")) for r in avro_records(b)]
     except Exception:
-        return [(r["file_path"], r.get("checksum")) for r in json.loads(b.decode("utf-8"))["files"]]
+        return [(r["file_path"], r["record_count"], r.get("checksum")) for r in json.loads(b.decode("utf-8"))["files"]]
 
 
 class Inventory:
@@ -192,6 +284,17 @@ class Inventory:
                     self.checksummed[p] = bool(csum)
                     self.file_rows[p] = parquet_rows(self.files[p])
                     self.rows += self.file_rows[p]
+        # a checksum recorded for this path by ANY manifest ever written (old manifests stay on disk): the file had a
+        # write-time checksum, whatever the current snapshot's manifests say now
+        self.ever_checksummed: Dict[str, str] = {}
+        for mp in sorted(self.files):
+            if mp.startswith("metadata/manifests/") and "manifest_list" not in os.path.basename(mp):
+                try:
+                    for dp, csum in read_manifest_any(self.files[mp]):
+                        if csum:
+                            self.ever_checksummed.setdefault(dp.lstrip("/"), csum)
+                except Exception:
+                    pass
         self.roles: Dict[str, str] = {self.meta: "meta"}
         if HINT_PATH in self.files:
             self.roles[HINT_PATH] = "pointer"       # not "reachable from the snapshot": only transient faults are injected
@@ -199,6 +302,13 @@ class Inventory:
             self.roles[self.list] = "list"
         self.roles.update({m: "manifest" for m in self.manifests})
         self.roles.update({d: "data" for d in self.data})
+
+    def all_data_files(self) -> List[str]:
+        return [p for p in self.files if p.startswith("data/") and p.endswith(".parquet")]
+
+    def manifest_entries(self) -> List[List[Tuple[str, int, Optional[str]]]]:
+        """The current snapshot's manifests in manifest-list order, each as its (path, count, checksum) entries."""
+        return [[(p.lstrip("/"), n, c) for p, n, c in read_manifest_full(self.files[m])] for m in self.manifests]
 
     def reachable(self) -> List[Tuple[str, str]]:
         return ([(self.meta, "meta")] + ([(self.list, "list")] if self.list else [])
@@ -392,10 +502,18 @@ def run_api(table, api: str, verify: bool, flt: Optional[Dict[str, Any]] = None)
     """Returns {"ok": bool, "rows"/"count", "yielded", "exc", "kind"}."""
     got: List[int] = []
     try:
+        with bounded(CALL_LIMIT_S, f"{api}(verify={verify})"):
+            return _run_api(table, api, verify, flt, got)
+    except LibraryHang as e:
+        return {"ok": False, "exc": "LibraryHang", "msg": str(e), "kind": "HANG", "hung": True, "yielded": got if api in BATCH else []}
+
+
+def _run_api(table, api: str, verify: bool, flt: Optional[Dict[str, Any]], got: List[int]) -> Dict[str, Any]:
+    try:
         if api == "Scan":
-            got = [row_id(r) for r in table.scan(verify_checksums=verify, filter=flt)]
+            got.extend(row_id(r) for r in table.scan(verify_checksums=verify, filter=flt))
         elif api == "ScanPar":
-            got = [row_id(r) for r in table.scan(parallel=2, verify_checksums=verify, filter=flt)]
+            got.extend(row_id(r) for r in table.scan(parallel=2, verify_checksums=verify, filter=flt))
         elif api == "Batches":
             for b in table.scan_batches(batch_size=BATCH["Batches"], verify_checksums=verify, filter=flt):
                 got.extend(row_id(r) for r in b)
@@ -670,7 +788,7 @@ def damages_for(inv: Inventory, path: str, tier: str, rng: random.Random) -> Lis
                 break
     out.append({"name": "braces", "class": "replace", "writes": {path: b"{}"}})
     out.append({"name": "text", "class": "replace", "writes": {path: b"not a table file\n"}})
-    flips = set([0, 3, n // 3, n // 2, n - 5, n - 1] + [b for b in bounds if b < n])
+    flips = set(([0, 3, n // 3, n // 2, n - 5, n - 1] if tier == "thorough" else [0, n // 2, n - 1]) + [b for b in bounds if b < n])
     if tier == "thorough":
         flips |= set(range(0, n, max(1, n // 32)))
     for o in sorted(x for x in flips if 0 <= x < n):
@@ -930,8 +1048,8 @@ def compare(mc: ModelCtx, api: str, impl: Dict[str, Any], trace: List[Tuple[str,
     return None
 
 
-def make_table(path: str, shape: List[List[int]], variant: Optional[str]) -> "Inventory":
-    build_table(path, shape)
+def make_table(path: str, shape: List[Any], variant: Optional[str], record: Optional[List[Dict[str, Any]]] = None) -> "Inventory":
+    build_table(path, shape, record)
     if variant:
         VARIANTS[variant][1](path)
     return Inventory(path)
@@ -941,6 +1059,55 @@ REDUCED = ("delete", "braces", "swap-sibling", "truncate@1")   # + transient, st
 
 
 DATA_APIS = ["Scan", "ScanPar", "Batches", "IterRecords"]
+
+
+def lost_checksums(inv: "Inventory") -> List[Dict[str, Any]]:
+    """Implementation-only: every data file of the current snapshot that was ever given a write-time checksum must
+    still be listed WITH that checksum, and it must be the SHA-256 of the file."""
+    bad = []
+    for entries in inv.manifest_entries():
+        for p, _n, csum in entries:
+            ever = inv.ever_checksummed.get(p)
+            actual = hashlib.sha256(inv.files[p]).hexdigest() if p in inv.files else None
+            if ever and (csum != ever or csum != actual):
+                bad.append({"file": p, "recorded_now": csum, "recorded_at_write": ever, "sha256_of_file": actual})
+    return bad
+
+
+def probe_recorded_checksums(ctx, inv: "Inventory", shape: List[Any], tag: str) -> None:
+    ctx.count(1, ("recorded-checksums", tag))
+    bad = lost_checksums(inv)
+    if bad:
+        kinds = sorted({"delete" if isinstance(s, dict) and s.get("delete") else "expire" if isinstance(s, dict) else "append" for s in shape})
+        ctx.violation("recorded-checksum-lost:" + "+".join(kinds),
+                      f"after the history {shape} the current snapshot lists {len(bad)} data file(s) without the checksum recorded when they "
+                      f"were written (first: {bad[0]}): verification can no longer detect a change of their bytes",
+                      {"table": tag, "shape": shape, "variant": None, "probe": "recorded-checksums", "lost": bad[:4]})
+
+
+def corr_history(ctx, mc: "ModelCtx", record: List[Dict[str, Any]], shape: List[Any], tag: str) -> None:
+    """Write side: the manifests (entry lists: path, count, checksum) of the snapshot after every commit of the
+    history, as an independent reader sees them, against Model/Read.v run_history on the same commits."""
+    if not record:
+        return
+    commits, exprs = [], []
+
+    def ck(h: Optional[str]) -> str:
+        return ModelCtx.sha_of_hex(h)
+    for step in record:
+        dele = "[" + "; ".join(mc.K(p) for p in step["deleted"]) + "]"
+        app = "[" + "; ".join(f"{{| dpath := {mc.K(p)}; dcount := ({n})%Z; dsum := {ck(h)} |}}" for p, n, h in step["appended"]) + "]"
+        commits.append(f"{{| c_deleted := {dele}; c_appended := {app} |}}")
+        exprs.append("map (map (fun d => (dpath d, dcount d, dsum d))) (run_history [" + "; ".join(commits) + "])")
+    got = coqbuild.coq_eval(REQ, exprs, chunk=40)
+    bad = []
+    for i, (step, g) in enumerate(zip(record, got)):
+        impl = [[(mc.key(p), n, (int(c[:12], 16) if c else None)) for p, n, c in m] for m in step["manifests_after"]]
+        model = [[(k, n, (c.x if c is not None else None)) for k, n, c in m] for m in g]
+        if impl != model:
+            bad.append({"table": tag, "shape": shape, "commit": i, "step": step["step"], "why": f"manifests after the commit: impl {impl} / model {model}"})
+    ctx.correspondence("run_history", len(record), bad)
+
 
 
 def prior_reads(t, api: str) -> List[Dict[str, Any]]:
@@ -958,8 +1125,12 @@ def run_table(ctx, path: str, shape: List[List[int]], tag: str, file_limit: Opti
     only on the store at the time of the read."""
     import time
     t_start = time.time()
-    inv = make_table(path, shape, variant)
+    record: List[Dict[str, Any]] = []
+    inv = make_table(path, shape, variant, record)
     mc = ModelCtx(inv)
+    if not variant:
+        probe_recorded_checksums(ctx, inv, shape, tag)
+        corr_history(ctx, mc, record, shape, tag)
     rng = ctx.rng
     healthy_rows = inv.rows
     cases: List[Dict[str, Any]] = []          # everything needed for the correspondence
@@ -1001,8 +1172,10 @@ def run_table(ctx, path: str, shape: List[List[int]], tag: str, file_limit: Opti
             new_bytes = dmg["writes"].get(p) if p else None
             in_scope = (dmg["class"] == "absent" or dmg["class"] == "transient"
                         or (dmg["class"] in ("truncate", "replace", "flip") and unparseable(role, new_bytes)))
+            # the file had a checksum recorded at write time (by any manifest of the table's history): any change of its
+            # bytes must be detected, whatever commits happened since
             data_changed = (role == "data" and dmg["class"] in ("truncate", "replace", "flip", "swap")
-                            and new_bytes != inv.files[p] and inv.checksummed[p])
+                            and new_bytes != inv.files[p] and bool(inv.ever_checksummed.get(p)))
             for api in APIS:
                 for verify in ((True, False) if api != "RowCount" else (True,)):
                     t = handles.get((api, verify)) or open_handle(path)
@@ -1020,6 +1193,11 @@ def run_table(ctx, path: str, shape: List[List[int]], tag: str, file_limit: Opti
                             "damage": dmg["name"], "api": api, "verify": verify}
                     if session:
                         case["session"] = True
+                    CURRENT_CASE.clear()
+                    CURRENT_CASE.update(case)
+                    if impl.get("hung"):
+                        ctx.violation(f"{pre}library-call-hung:{api}", f"{role} file {dmg['name']}: {api}(verify={verify}) did not return: {impl['msg']}",
+                                      dict(case, got=impl, expect="returns-in-time"))
                     # ---------------- implementation-only oracle
                     answer_ok = impl["ok"] and ((api == "RowCount" and impl["count"] == len(healthy_rows))
                                                 or (api != "RowCount" and impl["rows"] == healthy_rows))
@@ -1097,7 +1275,31 @@ def run_table(ctx, path: str, shape: List[List[int]], tag: str, file_limit: Opti
     ctx.correspondence("read_current_same_handle" if session else "read_current", len(cases), bad)
 
 
-SHAPES_QUICK = [[[3, 2], [4, 1], [2, 3]]]
+def history_shapes(ctx) -> List[List[Any]]:
+    fixed = [[[2, 2, 1], [2, 1], {"delete": [1, 3]}, [1]]]
+    if ctx.tier == "quick":
+        return fixed
+    fixed.append([[2], [1, 1], {"delete": [0]}, {"expire": True}, [2], {"delete": [0], "append": [1]}])
+    rng = ctx.rng
+    for _ in range(2):
+        h: List[Any] = [[rng.choice([1, 2, 3]) for _ in range(rng.choice([2, 3]))]]
+        for _ in range(rng.choice([3, 4])):
+            r = rng.random()
+            if r < 0.4:
+                h.append([rng.choice([1, 2]) for _ in range(rng.choice([1, 2, 3]))])
+            elif r < 0.85:
+                st: Dict[str, Any] = {"delete": [rng.randrange(8) for _ in range(rng.choice([1, 1, 2]))]}
+                if rng.random() < 0.3:
+                    st["append"] = [rng.choice([1, 2])]
+                h.append(st)
+            else:
+                h.append({"expire": True})
+        h.append([1])       # never end on an empty table
+        fixed.append(h)
+    return fixed
+
+
+SHAPES_QUICK = [[[3, 2], [4], [2]]]
 SHAPES_THOROUGH = [[[3, 2], [4, 1], [2, 3]], [[1], [1], [1]], [[2, 2, 2], [5]]]
 
 
@@ -1155,8 +1357,11 @@ def oracle_fresh_handle(ctx, path: str) -> None:
                 for api in APIS:
                     n += 1
                     try:
-                        t = load_table(path)
+                        with bounded(CALL_LIMIT_S, "load_table"):
+                            t = load_table(path)
                         impl = run_api(t, api, True)
+                    except LibraryHang as e:
+                        impl = {"ok": True, "rows": f"HANG: {e}"}
                     except Exception as e:  # noqa: BLE001
                         impl = {"ok": False, "exc": type(e).__name__}
                     if impl["ok"] and not (role == "data" and api == "RowCount"):
@@ -1195,8 +1400,12 @@ def oracle_options(ctx, path: str) -> None:
                 for name, fn in calls.items():
                     n += 1
                     try:
-                        got = fn(open_handle(path))
+                        handle = open_handle(path)
+                        with bounded(CALL_LIMIT_S, name):
+                            got = fn(handle)
                         exc = None
+                    except LibraryHang as e:
+                        got, exc = [f"HANG: {e}"], None
                     except Exception as e:  # noqa: BLE001
                         got, exc = None, e
                     if exc is None:
@@ -1235,19 +1444,27 @@ def run(ctx) -> None:
     ]
     ctx.proofs(THEOREMS, gen_files=["GenRead.v"])
     ctx.allow_axioms([])
+    start_memory_watchdog(ctx)
     shapes = SHAPES_QUICK if ctx.tier == "quick" else SHAPES_THOROUGH
     try:
         for i, shape in enumerate(shapes):
             run_table(ctx, os.path.join(ctx.scratch, f"t{i}"), shape, f"t{i}")
     except RuntimeError as e:
         ctx.proof_problems.append("model evaluation failed: " + str(e)[:800])
+    meta_plane = frozenset(["meta", "list", "manifest", "pointer"])
     try:
-        meta_plane = frozenset(["meta", "list", "manifest", "pointer"])
+        # tables whose history is more than appends: partial deletes (manifest rewritten, survivors carried over),
+        # whole-manifest deletes, delete+append in one commit, expired snapshots -- then the same damage matrix
+        for i, shape in enumerate(history_shapes(ctx)):
+            run_table(ctx, os.path.join(ctx.scratch, f"h{i}"), shape, f"history:h{i}", reduced=meta_plane,
+                      session=(ctx.tier == "thorough" and i == 0))
+    except RuntimeError as e:
+        ctx.proof_problems.append("model evaluation failed (history tables): " + str(e)[:800])
+    try:
         run_table(ctx, os.path.join(ctx.scratch, "s0"), [[2, 2], [3]], "session:s0", session=True,
                   reduced=(meta_plane if ctx.tier == "quick" else False))
         if ctx.tier == "thorough":
-            run_table(ctx, os.path.join(ctx.scratch, "s1"), [[2, 1], [2]], "session:json", variant="json", session=True)
-            run_table(ctx, os.path.join(ctx.scratch, "s2"), [[2, 1], [2]], "session:nosum", variant="nosum", session=True,
+            run_table(ctx, os.path.join(ctx.scratch, "s1"), [[2, 1], [2]], "session:json", variant="json", session=True,
                       reduced=meta_plane)
     except RuntimeError as e:
         ctx.proof_problems.append("model evaluation failed (same-handle sessions): " + str(e)[:800])
@@ -1267,6 +1484,9 @@ def run(ctx) -> None:
 def execute_case(case: Dict[str, Any], path: str) -> Optional[Tuple[Dict[str, Any], "Inventory", str]]:
     """Rebuild the table of a recorded case, apply its damage, run its API call. None when not applicable."""
     inv = make_table(path, case["shape"], case.get("variant"))
+    if case.get("probe") == "recorded-checksums":
+        bad = lost_checksums(inv)
+        return {"ok": bool(bad), "rows": bad, "yielded": []}, inv, "recorded checksums after the history"
     if case["damage"] == "healthy":
         return run_api(open_handle(path), case["api"], case["verify"]), inv, "(undamaged)"
     files = [q for q, r in inv.reachable() if r == case["role"]] if case["role"] != "pointer" else [HINT_PATH]
@@ -1301,6 +1521,10 @@ def execute_case(case: Dict[str, Any], path: str) -> Optional[Tuple[Dict[str, An
 
 
 def case_fails(case: Dict[str, Any], impl: Dict[str, Any], inv: "Inventory") -> bool:
+    if case.get("probe") == "recorded-checksums":
+        return impl["ok"]               # "ok" = checksums were lost
+    if case.get("expect") == "returns-in-time":
+        return bool(impl.get("hung"))
     if case["damage"] == "healthy":
         return impl["ok"] if inv.broken else not impl["ok"]
     if case.get("expect") == "corrupt":
@@ -1311,20 +1535,26 @@ def case_fails(case: Dict[str, Any], impl: Dict[str, Any], inv: "Inventory") -> 
 def shrink(ctx) -> None:
     """Re-run each distinct unlisted violation on smaller tables; keep the smallest that still fails."""
     seen = set()
-    size = lambda sh: (sum(len(f) for f in sh), sum(sum(f) for f in sh))
+    def size(sh):
+        apps = [f if isinstance(f, list) else f.get("append", []) for f in sh]
+        return (len(sh) + sum(len(f) for f in apps), sum(sum(f) for f in apps))
     for v in ctx.violations:
         case = v["replay"]
         key = KNOWN_KEY if v["key"].startswith(KNOWN_KEY) else v["key"]      # the known finding: shrink one instance
-        if (key in seen or not isinstance(case, dict)
-                or "damage" not in case or "shape" not in case or "api" not in case):
+        if (key in seen or not isinstance(case, dict) or "shape" not in case
+                or not (case.get("probe") or ("damage" in case and "api" in case))):
             continue
-        if "@" in case["damage"] and case["damage"] not in ("truncate@0", "truncate@1"):
+        if "@" in case.get("damage", "") and case["damage"] not in ("truncate@0", "truncate@1"):
             continue                    # an offset names a different place in a file of another size
         seen.add(key)
-        for shape in ([[1]], [[1], [1]], [[1, 1]], [[2], [1]]):
+        with_history = any(isinstance(st, dict) for st in case["shape"])
+        candidates = ([[[1, 1], {"delete": [0]}], [[1, 1], {"delete": [1]}], [[1, 1, 1], {"delete": [0]}], [[2, 1], [1], {"delete": [0]}], [[1], {"expire": True}, [1]]]
+                      if with_history else [[[1]], [[1], [1]], [[1, 1]], [[2], [1]]])
+        for shape in candidates:
             if size(shape) >= size(case["shape"]):
                 continue
             c2 = dict(case, shape=shape, index=0)
+            c2.pop("lost", None)
             try:
                 r = execute_case(c2, os.path.join(ctx.scratch, "shrink"))
             except Exception:  # noqa: BLE001
@@ -1338,16 +1568,21 @@ def shrink(ctx) -> None:
 def replay(ctx, payload) -> int:
     logging.disable(logging.CRITICAL)
     case = payload.get("case", {})
-    if "shape" not in case or "damage" not in case:
+    if "shape" not in case or ("damage" not in case and not case.get("probe")):
         print("replay: payload kind not replayable directly; re-run ./bin/check C14 thorough")
         return 2
+    case.setdefault("api", "-")
+    case.setdefault("verify", True)
     r = execute_case(case, os.path.join(ctx.scratch, "replay"))
     if r is None:
         print(f"replay: damage {case['damage']} on {case['role']} not applicable to the rebuilt table")
         return 2
     impl, inv, what = r
-    print(f"replay: {what} -> {case['api']}(verify={case['verify']}): "
-          + (f"RETURNED {impl.get('rows', impl.get('count'))} (undamaged: {'raises' if inv.broken else inv.rows})" if impl["ok"] else f"raised {impl['exc']}"))
+    if case.get("probe"):
+        print(f"replay: {what}: " + (f"LOST {impl['rows']}" if impl["ok"] else "every data file is still listed with its write-time checksum"))
+    else:
+        print(f"replay: {what} -> {case['api']}(verify={case['verify']}): "
+              + (f"RETURNED {impl.get('rows', impl.get('count'))} (undamaged: {'raises' if inv.broken else inv.rows})" if impl["ok"] else f"raised {impl['exc']}"))
     still = case_fails(case, impl, inv)
     print("replay:", "STILL FAILS" if still else "passes now")
     return 1 if still else 0
